@@ -78,8 +78,11 @@ def gen_job(rng, kind=None):
                 q = [rng.randint(10, 37), rng.randint(10, 37)]
                 if all((q[0] - p[0]) ** 2 + (q[1] - p[1]) ** 2 >= 196 for p in pts):
                     pts.append(q)          # a blob appears later: a trajectory is born mid-movie
+        # movies of different brightness: anything a FindLinker remembers about one movie's grey
+        # levels (thresholds, noise estimates) is wrong for the next one
         return dict(kind=kind, dim=2, frames=frames, t0=0, sr=[20, 20], iso=True, memory=0,
-                    strategy=None, withhold_seed=(rng.randrange(10 ** 6) if rng.random() < 0.7 else None))
+                    strategy=None, withhold_seed=(rng.randrange(10 ** 6) if rng.random() < 0.7 else None),
+                    amp=rng.choice([200, 200, 250, 60, 24]))
     mv = linkcommon.gen_movie(rng, thorough=False, plant_history=True)
     mv["frames"] = mv["frames"][:rng.randint(1, 6)]
     mv["kind"] = kind
@@ -114,7 +117,15 @@ def gen_cases(ctx):
             sched.append(s)
             if rng.random() < 0.15:
                 sched.append("L")                  # a complete tp.link call in between
-        yield dict(stream="sched", jobs=jobs, sched=sched, link_seed=rng.randrange(10 ** 6))
+        case = dict(stream="sched", jobs=jobs, sched=sched, link_seed=rng.randrange(10 ** 6))
+        # sampled: compare every job with its run in a fresh interpreter (cases with find_link jobs of
+        # different brightness first: that is where remembered image statistics would show)
+        amps = {jb.get("amp") for jb in jobs if jb["kind"] == "find_link_iter"}
+        if i % 16 == 0:
+            case["fresh"] = "all"
+        elif len(amps) >= 2:
+            case["fresh"] = "find_link"
+        yield case
     if ctx.thorough:
         # every interleaving of 3 jobs with <= 3 steps each, for several base movie triples
         for b in range(12):
@@ -156,7 +167,7 @@ def make_gen(jb):
                  [int(i) for i in df["particle"].values]) for df in g)
     if kind == "find_link_iter":
         from trackpy.linking.find_link import find_link_iter
-        reader = [Img(render(pts), k) for k, pts in enumerate(jb["frames"])]
+        reader = [Img(render(pts, amp=jb.get("amp", 200)), k) for k, pts in enumerate(jb["frames"])]
         wseed = jb.get("withhold_seed")
 
         def before_link(coords, image=None, **kw):
@@ -188,6 +199,22 @@ def partition(levels):
         for p, l in zip(pts, labels):
             d.setdefault(l, []).append((k, tuple(p)))
     return frozenset(frozenset(v) for v in d.values())
+
+
+def fresh_solo(jb):
+    """the job alone in a fresh interpreter -> dict(levels, raised) or None (infrastructure)"""
+    import json
+    import os
+    import subprocess
+    import sys
+    try:
+        p = subprocess.run([sys.executable, "-m", "harness.c04_fresh"], input=json.dumps(jb), text=True,
+                           capture_output=True, cwd=common.ROOT, timeout=120)
+        if p.returncode != 0:
+            return None
+        return json.loads(p.stdout.strip().split("\n")[-1])
+    except Exception:
+        return None
 
 
 def levels_for_monitor(jb, levels):
@@ -279,6 +306,22 @@ def run_case(ctx, inp):
                 res.stat("partition_differs_ties")
             else:
                 res.stat("partition_equal")
+        # history-free reference: the same job alone in a FRESH interpreter (sampled cases)
+        if (inp.get("fresh") == "all" or (inp.get("fresh") and isfl)) and not res.viol:
+            fr = fresh_solo(jb)
+            if fr is not None and not fr["raised"] and len(fr["levels"]) >= len(out[j]):
+                ref = [(p, l) for p, l in fr["levels"]][:len(out[j])]
+                res.stat("fresh_process_references")
+                if partition(ref) != partition(out[j]):
+                    if m.get("ties", "?") == "0" or isfl:
+                        res.violation("property-violation",
+                                      "job %d (%s): its partition in this process (after other jobs / "
+                                      "earlier calls) differs from the same job run alone in a fresh "
+                                      "interpreter" % (j, jb["kind"]),
+                                      impl=dict(ops=ops, here=out[j], fresh=ref),
+                                      signature=dict(what="partition-depends-on-process-history"))
+                    else:
+                        res.stat("fresh_differs_tied")
     # naming model: ids that start trajectories, per executed step, vs per-job counters
     seen = [set() for _ in jobs]
     idx = [0] * len(jobs)
